@@ -49,11 +49,14 @@ def findOutputStr (lhs : List Nat) : List Nat :=
   let tmp := lhs.filter (· != cComma)
   (sortIx (uniq tmp)).filter fun s => tmp.count s == 1
 
-/-- `find_output_from_inputs(inputs)`: labels that occur exactly once, in order of appearance.
-    (The real loop keeps an insertion-ordered dict `once` and pops a label on its second
-    appearance; what is left is this filter.) -/
+/-- one round of the loop of `find_output_from_inputs`: `(appeared, once)`; `once` is the
+    insertion-ordered dict (`once.pop(ind, None)` / `once[ind] = None`) -/
+def foStep (st : List Nat × List Nat) (ind : Nat) : List Nat × List Nat :=
+  if st.1.contains ind then (st.1, st.2.filter (· != ind)) else (ind :: st.1, st.2 ++ [ind])
+
+/-- `find_output_from_inputs(inputs)` -/
 def findOutputFromInputs (inputs : List (List Nat)) : List Nat :=
-  (uniq inputs.flatten).filter fun l => inputs.flatten.count l == 1
+  (inputs.flatten.foldl foStep ([], [])).2
 
 /-- the `defaultdict` of `canonicalize_inputs`: label ↦ `get_symbol(rank of first appearance)`,
     over the labels of `seq` in order -/
@@ -148,6 +151,35 @@ def maxList : List Nat → Nat
   | [] => 0
   | x :: r => max x (maxList r)
 
+/-- number of indices each term's ellipsis stands for: `len(shape) - (len(term) - 3)` -/
+def ellCounts (inputs : List (List Nat)) (ranks : List Nat) (flags : List Bool) : List (Option Nat) :=
+  (inputs.zip (ranks.zip flags)).map fun (t, rk, f) => if f then some (rk - (t.length - 3)) else none
+
+/-- the symbols chosen for the ellipsis dimensions -/
+def ellSyms (inputs : List (List Nat)) (ks : List (Option Nat)) : List Nat :=
+  let req := maxList (ks.filterMap id)
+  freshSyms inputs.flatten req 0 (req + inputs.flatten.length)
+
+/-- `inputs[i].replace("...", "".join(ellipses_inds[req - ne:]))` -/
+def expandTerm (ell : List Nat) (req : Nat) (t : List Nat) (k : Option Nat) : List Nat :=
+  match k with
+  | some ne => replaceEllipsis (ell.drop (req - ne)) t
+  | none => t
+
+/-- the branch `if "." in lhs` of `parse_equation_ellipses`, after the terms have been checked -/
+def expand (inputs : List (List Nat)) (ks : List (Option Nat)) (lhs : List Nat) (rhs : List (List Nat)) :
+    Except Err (List (List Nat) × List Nat) :=
+  let req := maxList (ks.filterMap id)
+  let ell := ellSyms inputs ks
+  let newInputs := (inputs.zip ks).map fun p => expandTerm ell req p.1 p.2
+  match rhs with
+  | o :: _ =>
+    match checkEllipsis o with
+    | .error e => .error e
+    | .ok true => .ok (newInputs, replaceEllipsis ell o)
+    | .ok false => .ok (newInputs, o)
+  | [] => .ok (newInputs, ell ++ findOutputStr lhs)
+
 /-- `parse_equation_ellipses(eq, shapes, tuples=True)` -/
 def parseEllipses (cfg : Cfg) (eq0 : List Nat) (ranks : List Nat) :
     Except Err (List (List Nat) × List Nat) :=
@@ -161,24 +193,7 @@ def parseEllipses (cfg : Cfg) (eq0 : List Nat) (ranks : List Nat) :
       -- which terms have an ellipsis (`ValueError` for malformed dots)
       match inputs.mapM checkEllipsis with
       | .error e => .error e
-      | .ok flags =>
-        let used := inputs.flatten
-        -- how many indices each ellipsis stands for
-        let ks := (inputs.zip (ranks.zip flags)).map fun (t, rk, f) =>
-          if f then some (rk - (t.length - 3)) else none
-        let req := maxList (ks.filterMap id)
-        let ell := freshSyms used req 0 (req + used.length)
-        let newInputs := (inputs.zip ks).map fun (t, k) =>
-          match k with
-          | some ne => replaceEllipsis (ell.drop (req - ne)) t
-          | none => t
-        match rhs with
-        | o :: _ =>
-          match checkEllipsis o with
-          | .error e => .error e
-          | .ok true => .ok (newInputs, replaceEllipsis ell o)
-          | .ok false => .ok (newInputs, o)
-        | [] => .ok (newInputs, ell ++ findOutputStr lhs)
+      | .ok flags => expand inputs (ellCounts inputs ranks flags) lhs rhs
     else
       match rhs with
       | o :: _ =>
